@@ -223,6 +223,42 @@ func (w *c16World) newPod(wl *c16Workload, ns, node string, ready bool, prio int
 	return p
 }
 
+const c16Finalizer = "verif.koordinator.sh/hold"
+
+// terminate puts the pod into graceful deletion: deletionTimestamp set, object (and its Running / Ready
+// status) still there. The fake client only keeps a deleted object while it has a finalizer.
+func (w *c16World) terminate(p *corev1.Pod) {
+	cur := &corev1.Pod{}
+	if err := w.c.Get(context.TODO(), types.NamespacedName{Namespace: p.Namespace, Name: p.Name}, cur); err != nil {
+		panic(err)
+	}
+	cur.Finalizers = []string{c16Finalizer}
+	if err := w.c.Update(context.TODO(), cur); err != nil {
+		panic(err)
+	}
+	if err := w.c.Delete(context.TODO(), cur); err != nil {
+		panic(err)
+	}
+	w.dirty()
+}
+
+// removePod makes the pod object disappear from the API (also a terminating one).
+func (w *c16World) removePod(p *corev1.Pod) {
+	cur := &corev1.Pod{}
+	if err := w.c.Get(context.TODO(), types.NamespacedName{Namespace: p.Namespace, Name: p.Name}, cur); err == nil {
+		if len(cur.Finalizers) > 0 {
+			cur.Finalizers = nil
+			if err := w.c.Update(context.TODO(), cur); err != nil && !apierrors.IsNotFound(err) {
+				panic(err)
+			}
+		}
+		if err := w.c.Delete(context.TODO(), cur); err != nil && !apierrors.IsNotFound(err) {
+			panic(err)
+		}
+	}
+	w.dirty()
+}
+
 func (w *c16World) newJob(pod *corev1.Pod, tsOffset int) *v1alpha1.PodMigrationJob {
 	w.jobSeq++
 	name := fmt.Sprintf("job-%d", w.jobSeq)
@@ -304,6 +340,9 @@ func c16Scaled(v *intstr.IntOrString, replicas int) int {
 func (w *c16World) nonHeadroomReason(p *corev1.Pod) string {
 	if p.Annotations[extension.AnnotationEvictionCost] == strconv.Itoa(math.MaxInt32) {
 		return "max-eviction-cost"
+	}
+	if p.DeletionTimestamp != nil {
+		return "terminating"
 	}
 	o := metav1.GetControllerOf(p)
 	if o == nil {
@@ -543,17 +582,23 @@ func TestVerifC16ArbitrationRounds(t *testing.T) {
 		for i, n := 0, rapid.IntRange(1, 3).Draw(t, "namespaces"); i < n; i++ {
 			w.nss = append(w.nss, fmt.Sprintf("ns%d", i))
 		}
+		sawTerminatingReady, restarts, sawStalePassed := false, 0, false
 		genPod := func(wl *c16Workload, ns string) *corev1.Pod {
 			node := rapid.SampledFrom(w.nodes).Draw(t, "podNode")
 			ready := rapid.IntRange(0, 4).Draw(t, "podReady") > 0
 			prio := int32(rapid.SampledFrom([]int{0, 0, 5000, 9000}).Draw(t, "podPrio"))
 			maxCost := rapid.IntRange(0, 19).Draw(t, "podMaxCost") == 0
+			terminating := rapid.IntRange(0, 24).Draw(t, "podTerminating") == 0
 			p := w.newPod(wl, ns, node, ready, prio, maxCost)
+			if terminating {
+				w.terminate(p) // being deleted, but still Running (and Ready if it was): not available any more
+				sawTerminatingReady = sawTerminatingReady || (ready && wl != nil)
+			}
 			wn := "bare"
 			if wl != nil {
 				wn = wl.Name
 			}
-			w.logf("pod %s wl=%s node=%s ready=%v prio=%d maxCost=%v", c16Key(p), wn, node, ready, prio, maxCost)
+			w.logf("pod %s wl=%s node=%s ready=%v prio=%d maxCost=%v terminating=%v", c16Key(p), wn, node, ready, prio, maxCost, terminating)
 			return p
 		}
 		for i, n := 0, rapid.IntRange(1, 4).Draw(t, "workloads"); i < n; i++ {
@@ -659,6 +704,15 @@ func TestVerifC16ArbitrationRounds(t *testing.T) {
 			for _, j := range w.jobs() {
 				jobsBefore[j.UID] = j
 			}
+			// after a restart: jobs that passed arbitration before it (annotation in the API) and have been replayed
+			// into the new arbitrator but not gone through a round yet
+			stalePassed := 0
+			for _, uid := range waiting {
+				if j := jobsBefore[uid]; j != nil && c16Phase(j) == v1alpha1.PodMigrationJobPending && c16Passed(j) && !w.ghost[uid] {
+					stalePassed++
+				}
+			}
+			sawStalePassed = sawStalePassed || stalePassed > 0
 			// competition (non-trivial rule): in some limited scope with free slots, more admissible waiting jobs than slots
 			{
 				type sc struct{ left, want int }
@@ -778,7 +832,12 @@ func TestVerifC16ArbitrationRounds(t *testing.T) {
 					bound = b
 				}
 				if af > bound {
-					viol("arbitration:over-limit:"+strings.SplitN(scope, " ", 2)[0], "round %d: %s: %d active after the round, limit %d, %d before the round", rounds, scope, af, limit, b)
+					sig := "arbitration:over-limit:" + strings.SplitN(scope, " ", 2)[0]
+					if stalePassed > 0 {
+						// a different defect than a wrong limit check: the new arbitrator does not know yet about jobs admitted before the restart
+						sig = "arbitration:over-limit-after-restart:passed-job-not-yet-rearbitrated"
+					}
+					viol(sig, "round %d: %s: %d active after the round, limit %d, %d before the round (%d passed-pending jobs replayed after a restart were still waiting for re-arbitration)", rounds, scope, af, limit, b, stalePassed)
 					return true
 				}
 				return false
@@ -885,8 +944,7 @@ func TestVerifC16ArbitrationRounds(t *testing.T) {
 				if err := w.c.Get(ctx, types.NamespacedName{Namespace: j.Spec.PodRef.Namespace, Name: j.Spec.PodRef.Name}, p); err != nil {
 					t.Skip("pod already gone")
 				}
-				_ = w.c.Delete(ctx, p)
-				w.dirty()
+				w.removePod(p)
 				w.logf("%s evicted its pod %s", j.Name, c16Key(p))
 				if o := metav1.GetControllerOf(p); o != nil {
 					np := w.newPod(w.byUID[o.UID], p.Namespace, rapid.SampledFrom(w.nodes).Draw(t, "newNode"), false, 0, false)
@@ -952,9 +1010,57 @@ func TestVerifC16ArbitrationRounds(t *testing.T) {
 					t.Skip("no pods")
 				}
 				p := rapid.SampledFrom(ps).Draw(t, "pod")
-				_ = w.c.Delete(ctx, p)
-				w.dirty()
+				w.removePod(p)
 				w.logf("pod %s vanished", c16Key(p))
+			},
+			// graceful deletion of a replica starts (scale-in, rollout, node drain ...): still Running/Ready for a while
+			"podStartsTerminating": func(t *rapid.T) {
+				if dead {
+					return
+				}
+				if rapid.IntRange(0, 2).Draw(t, "rare") != 0 {
+					t.Skip("rare action")
+				}
+				var cands []*corev1.Pod
+				for _, p := range w.pods() {
+					if p.DeletionTimestamp == nil {
+						cands = append(cands, p)
+					}
+				}
+				if len(cands) == 0 {
+					t.Skip("no pods")
+				}
+				p := rapid.SampledFrom(cands).Draw(t, "pod")
+				w.terminate(p)
+				sawTerminatingReady = sawTerminatingReady || (c16Ready(p) && metav1.GetControllerOf(p) != nil)
+				w.logf("pod %s terminating (ready=%v)", c16Key(p), c16Ready(p))
+			},
+			// descheduler restart / leader failover: a new arbitrator with empty in-memory state on the same API
+			// state; the informer replays every job that is not finished through the real create-event handler
+			"arbitratorRestart": func(t *rapid.T) {
+				if dead {
+					return
+				}
+				if rapid.IntRange(0, 1).Draw(t, "rare") != 0 {
+					t.Skip("rare action")
+				}
+				a = c16NewArbitrator(w, handle)
+				h = NewHandler(a, w.c)
+				var live []*v1alpha1.PodMigrationJob
+				for _, j := range w.jobs() {
+					if c16Live(j) {
+						live = append(live, j)
+					}
+				}
+				var order []string
+				if len(live) > 0 {
+					for _, j := range rapid.Permutation(live).Draw(t, "replayOrder") {
+						h.Create(ctx, event.CreateEvent{Object: j}, q)
+						order = append(order, j.Name)
+					}
+				}
+				restarts++
+				w.logf("arbitrator restart, replayed %v", order)
 			},
 			"round":  round,
 			"round2": round,
@@ -973,6 +1079,9 @@ func TestVerifC16ArbitrationRounds(t *testing.T) {
 		c.ClassIf(sawGhost, "job-admitted-without-pod(not counted)")
 		c.ClassIf(sawOverBefore, "limit-already-exceeded-before-round")
 		c.ClassIf(sawFilterDup, "filter-asked-for-pod-with-live-job")
+		c.ClassIf(sawTerminatingReady, "terminating-but-ready-replica")
+		c.ClassIf(restarts > 0, "arbitrator-restarted")
+		c.ClassIf(sawStalePassed, "round-with-replayed-passed-job")
 		c.ClassIf(w.args.MaxMigratingGlobally != nil && *w.args.MaxMigratingGlobally > 0, "global-limit-set")
 		c.ClassIf(w.args.MaxMigratingPerWorkload != nil && w.args.MaxMigratingPerWorkload.Type == intstr.String, "workload-limit-percent")
 		if contendedOne {
